@@ -21,7 +21,7 @@ TECHNIQUE = ("runtime monitoring: call-log exactly-once monitor + injective resu
 RULE = ("seeded grids (1-5 args x 1-4 values, int/float/str, three spellings, 0-3 constants, scalar/"
         "tuple/array/list results) x strategy (sequential, shuffle True/int incl. the seeds 0 and 1, held-task submit/apply_async "
         "executors completing in every permutation, ThreadPool, ProcessPool, multiprocessing.Pool, loky "
-        "parallel/num_workers) x split/flat; the largest grids of the quantifier (576-1024 settings) through every executor path; sweeps following an equal-valued sweep of other types in the same process; value containers handed over as given (list, tuple, range, unsorted ndarray, dict key/value views, generator, map); a case is distinct by (grid shape, value types, spelling, "
+        "parallel/num_workers) x split/flat; the largest grids of the quantifier (576-1024 settings) through every executor path, and grids beyond it (2025-2187 settings) sequentially, shuffled and through executors; sweeps following an equal-valued sweep of other types in the same process; value containers handed over as given (list, tuple, range, unsorted ndarray, dict key/value views, generator, map); a case is distinct by (grid shape, value types, spelling, "
         "strategy, completion order observed in the call log, split, flat, kind) and non-trivial when "
         "the grid has >= 2 settings")
 ASSUMPTIONS = [
@@ -32,6 +32,7 @@ SHARDS = {"quick": 4, "thorough": 16}
 MIN_REACH = {
     "sweeps_following_an_equal_valued_sweep": {"quick": 10, "thorough": 120},
     "grids_over_512_settings_through_executors": {"quick": 2, "thorough": 3},
+    "grids_over_2000_settings": {"quick": 4, "thorough": 4},
     "calls_logged": {"quick": 3000, "thorough": 200000},
     "distinct_completion_orders": {"quick": 40, "thorough": 700},
     "real_pool_cases": {"quick": 8, "thorough": 100},
@@ -140,6 +141,15 @@ def cases(ctx):
         st = {"name": name, "perm_seed": rng.randint(0, 10 ** 9), "seed": rng.randint(2, 999), "workers": 3, "jitter_us": 0, "jitter_seed": 0}
         yield {"combos": combos, "spelling": "dict", "constants": {}, "kind": "int", "split": False, "flat": bool(i % 2),
                "strategy": st, "values_as": "list", "big": True}
+    # ... and grids well BEYOND it (2025, 2187 and 2026 settings - sizes that are no multiple of a round chunk): whatever
+    # chunking, windowing or throttling a run strategy applies to long task lists must not lose or misplace a setting
+    huge = [[45, 45], [3] * 7, [2, 1013]]
+    for i, name in enumerate(["seq", "shuffle_int", "threadpool", "fake_submit", "seq", "shuffle_int"]):
+        sizes = huge[(i + ctx.seed) % len(huge)]
+        combos = [[a, [j * (k + 1) for j in range(n)]] for k, (a, n) in enumerate(zip(["a", "b", "c", "d", "e", "f", "g"], sizes))]
+        st = {"name": name, "perm_seed": 17 + i, "seed": 5 + i, "workers": 3, "jitter_us": 0, "jitter_seed": 0}
+        yield {"combos": combos, "spelling": "dict", "constants": {}, "kind": "int", "split": False, "flat": bool(i % 2),
+               "strategy": st, "values_as": "list", "huge": True}
     # a sweep that FOLLOWS, in the same process, a sweep over equal-but-differently-typed values (1, 2 then 1.0, 2.0;
     # 0.0 then -0.0; True then 1; numpy scalars then Python ones): the function must receive the values of THIS sweep
     for i in range(ctx.pick(24, 300)):
@@ -211,6 +221,8 @@ def run_case(ctx, case):
             ctx.count("sweeps_following_an_equal_valued_sweep")
         except Exception:
             pass
+    if case.get("huge"):
+        ctx.count("grids_over_2000_settings")
     if case.get("big") and case["strategy"]["name"] not in ("seq", "shuffle_int"):
         ctx.count("grids_over_512_settings_through_executors")
     constants = dict(case["constants"])
